@@ -6,7 +6,7 @@ Require Import OPC.Uni OPC.Names OPC.NamesThm OPC.Fs OPC.FsThm OPC.Retry OPC.gen
 
 (* ------------------------------------------------------------------ regenerated facts *)
 (* the code still has the shape the model was written against (levels, exit rule, early returns, aggregation,
-   loop skeletons, cycle guard, isinstance guards on values read out of classes_by_name, None-tolerant uses of error.detail); decided on the table regenerated from the working tree on every run *)
+   loop skeletons, cycle guard, isinstance guards on values read out of classes_by_name, None-tolerant uses of error.detail, the header-or-guess media type dispatch of _get_document); decided on the table regenerated from the working tree on every run *)
 Theorem code_shape : code_shape_ok = true.
 Proof. vm_compute. reflexivity. Qed.
 
